@@ -30,19 +30,20 @@ import (
 // validates them against the operators the printer specification is built from.
 
 type modeMonitor struct {
-	mu      sync.Mutex
-	ov      map[uintptr]int // buffer object -> override of the printer that owns it
-	inh     map[uintptr]int // buffer object of a nested printer -> the override its parent was under when it made it
-	evs     []rfmt.VerifModeEvent
-	max     int
-	judged  int
-	seen    int
-	pidBuf  map[uint64]uintptr // printer -> its buffer object
-	prevP   func(rfmt.VerifPoolEvent)
-	prevM   func(rfmt.VerifModeEvent)
-	prevB   func(buffer.VerifEvent)
-	rep     *lib.Report
-	context func() string
+	mu       sync.Mutex
+	ov       map[uintptr]int // buffer object -> override of the printer that owns it
+	inh      map[uintptr]int // buffer object of a nested printer -> the override its parent was under when it made it
+	evs      []rfmt.VerifModeEvent
+	max      int
+	judged   int
+	seen     int
+	pidBuf   map[uint64]uintptr // printer -> its buffer object
+	prevP    func(rfmt.VerifPoolEvent)
+	prevM    func(rfmt.VerifModeEvent)
+	prevB    func(buffer.VerifEvent)
+	rep      *lib.Report
+	context  func() string
+	cancelGC func()
 }
 
 func installModeMonitor(rep *lib.Report, record int) *modeMonitor {
@@ -85,6 +86,17 @@ func installModeMonitor(rep *lib.Report, record int) *modeMonitor {
 			m.mu.Unlock()
 		}
 	}
+	// a printer abandoned by a propagating panic never sees put / drop; a nested one keeps the override it inherited.
+	// Its finalizer runs before its memory can be reused.
+	m.cancelGC = onPrinterCollected(func(pid uint64) {
+		m.mu.Lock()
+		if b, ok := m.pidBuf[pid]; ok {
+			delete(m.ov, b)
+			delete(m.inh, b)
+			delete(m.pidBuf, pid)
+		}
+		m.mu.Unlock()
+	})
 	buffer.VerifSink = func(ev buffer.VerifEvent) {
 		if m.prevB != nil {
 			m.prevB(ev)
@@ -119,6 +131,9 @@ func installModeMonitor(rep *lib.Report, record int) *modeMonitor {
 // printer identities) to path; returns the number of events written.
 func (m *modeMonitor) stop(path string) int {
 	rfmt.VerifModeSink, buffer.VerifSink, rfmt.VerifPoolSink = m.prevM, m.prevB, m.prevP
+	if m.cancelGC != nil {
+		m.cancelGC()
+	}
 	m.mu.Lock()
 	defer m.mu.Unlock()
 	m.rep.Count("writes_judged_by_mode_monitor", m.judged)
